@@ -1,0 +1,81 @@
+//go:build verif
+
+package server
+
+import (
+	"sort"
+
+	"github.com/resgateio/resgate/server/rescache"
+)
+
+// This file is only compiled with the "verif" build tag. It exposes read-only
+// introspection for the verification harness in /verif.
+
+// VerifCache returns the service's cache.
+func (s *Service) VerifCache() *rescache.Cache {
+	return s.cache
+}
+
+// VerifSub is a snapshot of one subscription of a connection.
+type VerifSub struct {
+	RID          string
+	Direct       int
+	Indirect     int
+	IndirectSent int
+	State        int
+	QueueFlag    int
+	Queued       int
+	HasAccess    bool
+	Refs         []string
+}
+
+// VerifConn is a snapshot of one connection.
+type VerifConn struct {
+	CID      string
+	HasToken bool
+	Subs     []VerifSub
+}
+
+// VerifConns returns a snapshot of all connections, each taken on the
+// connection's own worker goroutine.
+func (s *Service) VerifConns() []VerifConn {
+	s.mu.Lock()
+	conns := make([]*wsConn, 0, len(s.conns))
+	for _, c := range s.conns {
+		conns = append(conns, c)
+	}
+	s.mu.Unlock()
+
+	var out []VerifConn
+	for _, c := range conns {
+		c := c
+		done := make(chan VerifConn, 1)
+		if !c.Enqueue(func() {
+			vc := VerifConn{CID: c.cid, HasToken: c.token != nil}
+			for rid, sub := range c.subs {
+				vs := VerifSub{
+					RID:          rid,
+					Direct:       sub.direct,
+					Indirect:     sub.indirect,
+					IndirectSent: sub.indirectsent,
+					State:        int(sub.state),
+					QueueFlag:    int(sub.queueFlag),
+					Queued:       len(sub.eventQueue),
+					HasAccess:    sub.access != nil,
+				}
+				for r := range sub.refs {
+					vs.Refs = append(vs.Refs, r)
+				}
+				sort.Strings(vs.Refs)
+				vc.Subs = append(vc.Subs, vs)
+			}
+			sort.Slice(vc.Subs, func(i, j int) bool { return vc.Subs[i].RID < vc.Subs[j].RID })
+			done <- vc
+		}) {
+			continue
+		}
+		out = append(out, <-done)
+	}
+	sort.Slice(out, func(i, j int) bool { return out[i].CID < out[j].CID })
+	return out
+}
